@@ -285,6 +285,7 @@ pivot_inplace(const AbstractTensor<Derived,DIM>& src, Tensor<T,M,N> &P) {
         if (j != max_index)
             std::swap(perm(j), perm(max_index));
     }
+    P.fill(0);
     for (size_t i = 0; i < M; ++i)
         P(i, perm(i)) = 1;
 }
